@@ -414,7 +414,8 @@ MANIFEST = dict(
           '(verified by invoking the real closure symbolically). Path downloads receive into the temp file and get the rename '
           'handler before the subscribers; the handler renames on success, removes on error, removes and fails the transfer '
           'on a failing rename. _shutdown waits on the done-callbacks event of every tracked transfer last, on every path.'
-          ' get_make_request_args hands every request a fresh, empty before-list (mutable default arguments are modelled as shared objects); a construction error is what the future will raise.'),
+          ' get_make_request_args hands every request a fresh, empty before-list (mutable default arguments are modelled as shared objects); a construction error is what the future will raise.'
+          " Also: the public download / upload / delete validate first and submit exactly one transfer of the right type with the user's call arguments; a failing rename removes the temp file (never the destination)."),
     note=('A-CRT: the CRT client calls on_done exactly once per created request; subscriber callbacks do not raise inside the '
           'composed CRT callback (unguarded in the code: noted assumption); awscrt itself is not installed and not modelled.'),
     technique='contract-based deductive verification over the AST of crt.py (module not importable here)',
